@@ -820,11 +820,33 @@ impl LangGen {
                 self.tag("redefinition");
                 let f = self.rng.pick(&self.funcs.clone()).clone();
                 self.define_func(Some(f))
-            } else if k < 46 && i >= 2 {
-                self.redefine_builtin()
-            } else if k < 50 {
+            } else if k < 47 {
+                // a procedure compiled while the builtin is in place, the redefinition, and the call afterwards
+                let binary = ["*", "max", "min", "quotient", "remainder", "modulo"];
+                let op = self.rng.pick(&binary).to_string();
+                let h = self.fresh("usesb");
+                let (x, y) = (self.rng.range(1, 9), self.rng.range(1, 9));
+                forms.push(format!("(define ({} a b) (list ({} a b) (apply {} (list a b)) (map {} (list a) (list b))))", h, op, op, op));
+                forms.push(format!("({} {} {})", h, x, y));
+                let mut r = self.redefine_builtin();
+                if !r.contains(&format!("{} ", op)) && !r.contains(&format!("({} ", op)) {
+                    r = format!("(define ({} x y) (+ x y 1000))", op);
+                    self.redefined.push(op.clone());
+                }
+                forms.push(r);
+                format!("({} {} {})", h, x, y)
+            } else if k < 52 {
                 match self.define_setter() {
-                    Some(f) => f,
+                    Some(f) => {
+                        // define the setter, call it for effect, then observe the assigned global
+                        forms.push(f);
+                        let s = self.setters.last().unwrap().clone();
+                        let a = self.expr(Ty::Int, &[], 1);
+                        forms.push(format!("({} {})", s, a));
+                        let ints: Vec<Var> = self.globals.iter().filter(|v| v.ty == Ty::Int).cloned().collect();
+                        let names: Vec<String> = ints.iter().map(|v| v.name.clone()).collect();
+                        format!("(list {})", names.join(" "))
+                    }
                     None => self.effect(&[], 3),
                 }
             } else if k < 57 {
